@@ -36,12 +36,12 @@ def lock_configs(ctx):
     return cfgs
 
 
-def graph(roles, loop):
+def graph(roles, loop, budget=120):
     from props import c20_lock
     key = (roles, loop)
     if key not in _GRAPHS:
         t0 = time.time()
-        g = c20_lock.explore(list(roles), loop, deadline=time.time() + 900)
+        g = c20_lock.explore(list(roles), loop, deadline=time.time() + budget)
         g.wall = time.time() - t0
         _GRAPHS[key] = g
     return _GRAPHS[key]
@@ -99,9 +99,12 @@ def correspondence(ctx):
     exprs, meta = [], []
     for roles, loop in lock_configs(ctx):
         try:
-            g = graph(roles, loop)
+            g = graph(roles, loop, 120 if ctx.quick() else 900)
         except c20_lock.HarnessError as e:
             ctx.broken("correspondence: exploration of the real lock failed for %s loop=%s" % (roles, loop), e)
+            continue
+        if g.truncated:
+            ctx.notes.append("lock correspondence skipped for %s loop=%s: %s" % (roles, loop, g.truncated))
             continue
         for nd in g.nondet[:3]:
             ctx.broken("correspondence: the real lock behaved nondeterministically under the scheduler", nd)
@@ -162,11 +165,14 @@ def _search_lock(ctx):
     summ = {}
     for roles, loop in lock_configs(ctx):
         try:
-            g = graph(roles, loop)
+            g = graph(roles, loop, 120 if ctx.quick() else 900)
         except c20_lock.HarnessError as e:
             ctx.broken("search: exploration of the real lock failed for %s loop=%s" % (roles, loop), e)
             continue
         viol, s = c20_lock.analyse(g)
+        if g.truncated and not viol:
+            ctx.broken("search: the state space of the real lock could not be explored completely (%s loop=%s)" % (
+                roles, loop), g.truncated)
         s["wall_s"] = round(getattr(g, "wall", 0), 1)
         summ["%s:%s" % (roles, "loop" if loop else "once")] = s
         ctx.evaluations += s["states"]
@@ -262,6 +268,7 @@ def replay(ctx, data):
         d = f["data"]
         if f["kind"].startswith("lock-"):
             run = c20_lock.Run(list(d["roles"]), d["loop"])
+            graph_based = False
             try:
                 for tid in d["schedule"]:
                     run.step(tid)
@@ -271,8 +278,7 @@ def replay(ctx, data):
                 print("%s roles=%s loop=%s schedule=%s" % (f["kind"], d["roles"], d["loop"], d["schedule"]))
                 print("  real lock after the schedule: holders=%s locks=%s counters=%s" % (
                     names, [l.held for _, l in run.locks], [getattr(o, a) for _, (o, a) in run.ctrs]))
-                print("  status of each thread when stepped once more: %s" % (
-                    [s[0] if s[0] != "blocked" else "blocked" for s in st],))
+                print("  status of each thread when stepped once more: %s" % ([s[0] for s in st],))
                 if f["kind"] == "lock-mutual-exclusion":
                     bad = len(holders) > 1 and any(run.roles[t] == "W" for t in holders)
                 elif f["kind"] == "lock-deadlock":
@@ -280,12 +286,19 @@ def replay(ctx, data):
                 elif f["kind"] == "lock-lock-exception":
                     bad = any(s[0] == "exc" for s in run.status)
                 else:
-                    g = c20_lock.explore(list(d["roles"]), d["loop"])
-                    bad = any("lock-" + k == f["kind"] for k, _, _ in c20_lock.analyse(g)[0])
-                print("  expected: a writer in its critical section is the only holder; some thread can always move")
-                rc |= bool(bad)
+                    graph_based, bad = True, False
             finally:
                 run.abort()
+            if graph_based:
+                # "thread can no longer reach its critical section" etc.: needs the whole graph
+                g = c20_lock.explore(list(d["roles"]), d["loop"], deadline=time.time() + 300)
+                kinds = set("lock-" + k for k, _, _ in c20_lock.analyse(g)[0])
+                print("  violations in the explored graph of the real lock: %s" % sorted(kinds))
+                bad = f["kind"] in kinds
+            print("  expected: a writer in its critical section is the only holder; some thread can always move;")
+            print("            every thread can still reach its critical section")
+            print("  -> %s" % ("REPRODUCED" if bad else "not reproduced"))
+            rc |= bool(bad)
         elif f["kind"] == "curve-schedule":
             exp = CC.expected(d["curve"], d["params"], d["scenario"])
             bad = CC.check_point(d["curve"], d["params"], d["scenario"], d["point"], exp, d["deep"], d["rotate"])
